@@ -19,6 +19,9 @@ generic definitions the theorems are about (Generated/FreeEnergy.lean, Model/Fre
   mix <n,n,...> <v,v,...>                         IdealTPMixtureModel / IdealTMixtureModel
   mixS <n,n,...> <s,s,...>                        Mixture.S → IdealEntropyModel
   xsum <v,v,...>                                  Mixture.xH / xS / xCn
+  mixx <0|1> <n,..> <h,..> <hex,..>               Mixture.H with include_excess_energies = flag
+  mixSx <0|1> <n,..> <s,..> <sex,..>              Mixture.S with include_excess_energies = flag
+  Hforce|Sforce <0|1> <Tc> <s|l|g> <T> <P>        chemical.H / .S with PhaseTPHandle.force_gas_critical_phase = flag
 Numbers are `b<bits>` (or decimals); `none` is Python's None.
 -/
 namespace Driver.C07
@@ -166,6 +169,21 @@ def step (st : St) (line : String) : St × String :=
     match parseList? ns, parseList? vs with
     | some ns, some vs => if ns.length == vs.length then (st, showFloat (mixtureS st.env ns vs)) else (st, "bad-op")
     | _, _ => (st, "bad-op")
+  | [op, incl, ns, vs, xs] =>
+    match (if op == "mixx" then some true else if op == "mixSx" then some false else none),
+          parseBool? incl, parseList? ns, parseList? vs, parseList? xs with
+    | some isH, some incl, some ns, some vs, some xs =>
+      if ns.length == vs.length && ns.length == xs.length then
+        (st, showFloat (if isH then mixtureHx st.env incl ns vs xs else mixtureSx st.env incl ns vs xs))
+      else (st, "bad-op")
+    | _, _, _, _, _ => (st, "bad-op")
+  | [op, force, tc, p, t, pr] =>
+    if op == "Hforce" || op == "Sforce" then
+      match st.energies, parseBool? force, parseFloat? tc, parsePhase? p, parseFloat? t, parseFloat? pr with
+      | some w, some force, some tc, some p, some t, some pr =>
+        (st, showRes (if op == "Hforce" then w.Hforce st.env force tc p t pr else w.Sforce st.env force tc p t pr))
+      | _, _, _, _, _, _ => (st, "bad-op")
+    else (st, "bad-op")
   | ["xsum", vs] =>
     match parseList? vs with
     | some vs => (st, showFloat (xSum vs))
